@@ -440,6 +440,19 @@ def handleGenPeltCp : List String → String
       | none => "raises"
     | none => "bad-op"
 
+/-- `gencands <interval_start> <interval_end> <min_segment_length>`: the definition regenerated from /repo's
+    `make_anomaly_intervals` (route T2) -/
+def handleGenCands : List String → String
+  | [a, b, c] =>
+    if !GenL.loop_anomaly_intervals_translated then "untranslated" else
+    match a.toNat?, b.toNat?, c.toNat? with
+    | some s, some e, some m =>
+      match GenL.anomaly_intervals s e m with
+      | some r => s!"starts {r.1} ends {r.2}"
+      | none => "raises"
+    | _, _, _ => "bad-op"
+  | _ => "bad-op"
+
 def handle (line : String) : String :=
   let ws := (line.trimAscii.toString.splitOn " ").filter (· ≠ "")
   match ws with
@@ -455,6 +468,7 @@ def handle (line : String) : String :=
   | "genwhere" :: rest => handleGenWhere rest
   | "genmwcp" :: rest => handleGenMwcp rest
   | "genpeltcp" :: rest => handleGenPeltCp rest
+  | "gencands" :: rest => handleGenCands rest
   | "cutrow" :: rest => handleCutRow rest
   | "statanom" :: rest => handleStatAnom rest
   | "cfg" :: rest => handleCfg rest
